@@ -340,7 +340,7 @@ func genSpec(repo, outdir, verif string) {
 	var sb strings.Builder
 	w := func(f string, a ...interface{}) { fmt.Fprintf(&sb, f, a...) }
 	w("(* GENERATED by translators/tr_imports (go/types, export data of %s) — do not edit. *)\n", sp.GoVersion)
-	w("From Coq Require Import List NArith ZArith Bool.\nFrom Verif Require Import C32.Model C31.Model.\nImport ListNotations.\nOpen Scope N_scope.\n\n")
+	w("From Coq Require Import List NArith ZArith Bool.\nFrom Verif Require Import C31.Untyped C31.Model.\nImport ListNotations.\nOpen Scope N_scope.\n\n")
 	w("Definition spec_objs : spec := [\n")
 	for i, p := range sp.Pkgs {
 		var os_ []string
